@@ -143,6 +143,20 @@ fn a(s: &str) -> Alias {
     Alias::new(s)
 }
 
+/// separator between schema and table in a table name of the harness (`sch\u{0}tb` = table `tb` of schema `sch`)
+pub const SCHEMA_SEP: char = '\u{0}';
+
+/// a table name of the harness as a table reference: schema-qualified when it carries SCHEMA_SEP
+pub fn tref(s: &str) -> TableRef {
+    match s.split_once(SCHEMA_SEP) {
+        Some((sc, t)) => match crate::apply::route(2) {
+            0 => (a(sc), a(t)).into_table_ref(),
+            _ => TableRef::SchemaTable(a(sc).into_iden(), a(t).into_iden()),
+        },
+        None => a(s).into_table_ref(),
+    }
+}
+
 /// A schema statement rendered through one of its equivalent entry points: `build_any` (dynamic dispatch),
 /// `build` or `to_string` with the backend by value.
 pub fn render_schema<S: SchemaStatementBuilder>(st: &S, d: Dialect) -> String {
@@ -503,11 +517,26 @@ impl Col {
 impl Ix {
     pub fn statement(&self, table: Option<&str>) -> IndexCreateStatement {
         let mut ix = Index::create();
+        self.fill(&mut ix, table, true);
+        if crate::apply::route(3) == 0 {
+            return ix.take();
+        }
+        ix
+    }
+
+    /// nothing that `IndexCreateStatement::take()` leaves behind on the builder it empties (it moves
+    /// the name, table, columns and index type out, and copies the flags, predicate and INCLUDE list)
+    pub fn leaves_nothing_behind(&self) -> bool {
+        !self.unique && !self.nulls_not_distinct && !self.if_not_exists && self.filter.is_none() && self.include.is_empty()
+    }
+
+    /// the calls that declare this index, on a builder that may have been used (and emptied) before
+    pub fn fill(&self, ix: &mut IndexCreateStatement, table: Option<&str>, set_primary: bool) {
         if let Some(n) = &self.name {
             ix.name(n.as_str());
         }
         if let Some(t) = table {
-            ix.table(a(t));
+            ix.table(tref(t));
         }
         for (c, desc, prefix) in &self.cols {
             match (desc, prefix) {
@@ -520,7 +549,7 @@ impl Ix {
         if self.unique {
             ix.unique();
         }
-        if self.primary {
+        if self.primary && set_primary {
             ix.primary();
         }
         match self.index_type {
@@ -557,10 +586,6 @@ impl Ix {
                 }
             }
         }
-        if crate::apply::route(3) == 0 {
-            return ix.take();
-        }
-        ix
     }
 }
 
@@ -575,27 +600,27 @@ impl Fk {
             0 if self.cols.len() == self.ref_cols.len() => {
                 // pair by pair
                 for (c, r) in self.cols.iter().zip(&self.ref_cols) {
-                    fk.from(a(table), a(c));
-                    fk.to(a(&self.ref_table), a(r));
+                    fk.from(tref(table), a(c));
+                    fk.to(tref(&self.ref_table), a(r));
                 }
             }
             1 if !self.cols.is_empty() && !self.ref_cols.is_empty() => {
-                fk.from(a(table), a(&self.cols[0]));
+                fk.from(tref(table), a(&self.cols[0]));
                 for c in &self.cols[1..] {
                     fk.from_col(a(c));
                 }
                 fk.to_col(a(&self.ref_cols[0]));
                 for c in &self.ref_cols[1..] {
-                    fk.to(a(&self.ref_table), a(c));
+                    fk.to(tref(&self.ref_table), a(c));
                 }
-                fk.to_tbl(a(&self.ref_table));
+                fk.to_tbl(tref(&self.ref_table));
             }
             _ => {
-                fk.from_tbl(a(table));
+                fk.from_tbl(tref(table));
                 for c in &self.cols {
                     fk.from_col(a(c));
                 }
-                fk.to_tbl(a(&self.ref_table));
+                fk.to_tbl(tref(&self.ref_table));
                 for c in &self.ref_cols {
                     fk.to_col(a(c));
                 }
@@ -617,11 +642,11 @@ impl Fk {
         if let Some(n) = &self.name {
             fk.name(n.as_str());
         }
-        fk.from_tbl(a(table));
+        fk.from_tbl(tref(table));
         for c in &self.cols {
             fk.from_col(a(c));
         }
-        fk.to_tbl(a(&self.ref_table));
+        fk.to_tbl(tref(&self.ref_table));
         for c in &self.ref_cols {
             fk.to_col(a(c));
         }
@@ -651,8 +676,20 @@ impl Tbl {
         for c in &self.cols {
             t.col(c.column_def());
         }
+        // primary_key() / index() take the declaration out of the builder they are given, so one builder can
+        // declare several indexes in turn (as long as nothing of an earlier one stays behind on it)
+        let n_ix = self.indexes.len();
+        let reuse = n_ix >= 2 && self.indexes[..n_ix - 1].iter().all(|ix| ix.leaves_nothing_behind()) && crate::apply::route(2) == 0;
+        let mut shared = Index::create();
         for ix in &self.indexes {
-            if ix.primary {
+            if reuse {
+                ix.fill(&mut shared, None, false);
+                if ix.primary {
+                    t.primary_key(&mut shared);
+                } else {
+                    t.index(&mut shared);
+                }
+            } else if ix.primary {
                 t.primary_key(&mut ix.statement(None));
             } else {
                 t.index(&mut ix.statement(None));
